@@ -280,7 +280,9 @@ class Sequence(Container, list):
         they will be wrapped in a new element of that type before extending.
 
         """
-        for value in iterable:
+        # iterate over a snapshot: extending a sequence with itself must
+        # terminate
+        for value in list(iterable):
             self.append(value)
 
     def insert(self, index, value):
@@ -474,7 +476,7 @@ class List(Sequence):
         list.append(self, self._new_slot(value))
 
     def extend(self, iterable):
-        for v in iterable:
+        for v in list(iterable):
             self.append(v)
 
     def __getitem__(self, index):
